@@ -161,6 +161,68 @@ func runRange(c *core.Ctx) []core.Obligation {
 				fmt.Sprintf("%s has %d direct comparisons of a cell's RangeMin()/RangeMax(), %d were confirmed: one of its range tests was rewritten (e.g. RangeMax().Next() >= x is a different, exclusive test) or removed", fname, got, want)))
 		}
 	}
+	obs = append(obs, wrapFree(c)...)
+	return obs
+}
+
+// wrapFree (after round-6 seed C11-r6m2, `o.end.Next()` turned into `o.end.NextWrap()` as the exclusive end given to
+// CellUnionFromRange): the *Wrap successors map the last cell of face 5 to the first cell of face 0, which is SMALLER
+// than every other id. A value obtained from them therefore cannot be the end of a range: given to
+// CellUnionFromRange, or compared with <, <=, >, >=, it makes the range that ends on the last leaf empty.
+func wrapFree(c *core.Ctx) []core.Obligation {
+	var obs []core.Obligation
+	uses := 0
+	isWrap := func(v ssa.Value) string {
+		v = core.StripConv(v)
+		if call, ok := v.(*ssa.Call); ok {
+			if f := core.StaticCallee(call); f != nil && f.Signature.Recv() != nil && core.IsNamed(f.Signature.Recv().Type(), "s2", "CellID") {
+				switch f.Name() {
+				case "NextWrap", "PrevWrap", "AdvanceWrap":
+					return f.Name()
+				}
+			}
+		}
+		return ""
+	}
+	for _, fn := range c.GeoFuncs() {
+		n := 0
+		core.AllInstrs(fn, func(in ssa.Instruction) {
+			switch x := in.(type) {
+			case *ssa.BinOp:
+				switch x.Op {
+				case token.LSS, token.LEQ, token.GTR, token.GEQ:
+				default:
+					return
+				}
+				for _, o := range []ssa.Value{x.X, x.Y} {
+					if w := isWrap(o); w != "" {
+						n++
+						obs = append(obs, core.Ob("R-RANGE", fmt.Sprintf("wrap-free:%s#%d", core.FuncName(fn), n), c.Pos(x.Pos()), core.FuncName(fn), core.Violated,
+							"the result of "+w+"() is used in an ordered comparison: after the last cell of face 5 it wraps to the first cell of face 0, which is smaller than every other id, so the comparison gives the opposite answer exactly at the end of the curve"))
+					}
+				}
+			case *ssa.Call:
+				f := core.StaticCallee(x)
+				if f == nil {
+					return
+				}
+				if isWrap(x) != "" {
+					uses++
+				}
+				if f.Name() != "CellUnionFromRange" {
+					return
+				}
+				for _, a := range x.Call.Args {
+					if w := isWrap(a); w != "" {
+						n++
+						obs = append(obs, core.Ob("R-RANGE", fmt.Sprintf("wrap-free:%s#%d", core.FuncName(fn), n), c.Pos(x.Pos()), core.FuncName(fn), core.Violated,
+							"the result of "+w+"() is given to CellUnionFromRange as a range bound: for a range that ends on the last leaf of face 5 the bound wraps to the first leaf of face 0, the half-open range is empty, and the cells it should have produced are dropped"))
+					}
+				}
+			}
+		})
+	}
+	obs = append(obs, core.Ob("R-RANGE", "wrap-free:scan", "-", "", core.Discharged, fmt.Sprintf("no wrapping successor is used as a range bound or in an ordered comparison (%d calls of NextWrap/PrevWrap/AdvanceWrap in the library)", uses)))
 	return obs
 }
 
